@@ -150,6 +150,11 @@ def as_int(x):
     return n
 
 
+class EventArgs(list):
+    """argument list of a logged call with a `.snap` attribute (values at call time)"""
+    snap = None
+
+
 class PathEnd(Exception):
     def __init__(self, kind, info=None):
         self.kind, self.info = kind, info
@@ -1311,6 +1316,21 @@ class Executor:
         cache[clo_ty] = out
         return out
 
+    def snap_args(self, args):
+        """argument list for an event: the live values (references stay references) plus `.snap`, the
+        dereferenced byte strings / integers as they were AT THE TIME OF THE CALL — a loop that re-uses a
+        local buffer would otherwise make an earlier event show the later content"""
+        out = EventArgs(args)
+        snap = []
+        for a in args:
+            try:
+                d = self.deref_value(a) if isinstance(a, Ref) else a
+            except Exception:
+                d = a
+            snap.append(Bytes(d.len, d.arr) if isinstance(d, Bytes) else (I(d.bv, d.signed) if isinstance(d, I) else d))
+        out.snap = snap
+        return out
+
     def closure_body(self, clo):
         """MIR body of a closure value (matched on the `{closure@file:line:col}` type text)"""
         clo = self.deref_value(clo)
@@ -1334,7 +1354,7 @@ class Executor:
 
     def finish_call(self, st, dest, val, ret_bb, callee, args, log=True):
         if log:
-            st.events.append(("call", callee, args, val))
+            st.events.append(("call", callee, self.snap_args(args), val))
         fr = st.frames[-1]
         if ret_bb is None:
             if re.search(r"process::exit$|process::abort$", callee):
